@@ -48,7 +48,13 @@ int KillMemoryGrowth<Base>::init(
       });
 
   this->argParser_.addArgumentCustom(
-      "min_growth_ratio", min_growth_ratio_, PluginArgParser::parseUnsignedInt);
+      "min_growth_ratio", min_growth_ratio_, [](const std::string& s) {
+        float v = std::stof(s);
+        if (v < 0) {
+          throw std::invalid_argument("must be non-negative");
+        }
+        return v;
+      });
 
   return Base::init(args, context);
 }
